@@ -52,5 +52,5 @@ Qed.
 Theorem spec_quality_penalties ign_a td rviews :
   snd (spec_quality ign_a td rviews) =
   map (fun r => match pc_assigned (rv_pcd r) with Some ci => assigned_penalty ci (pc_choices (rv_pcd r)) td | None => 0 end)
-      (filter (fun r => negb (same_course r)) (filter (ignored ign_a) rviews)).
+      (filter (fun r => negb (same_course r) && has_choices r) (filter (ignored ign_a) rviews)).
 Proof. reflexivity. Qed.
